@@ -633,7 +633,22 @@ func (e *episode) topUpLocalTail() int {
 	}
 }
 
-var snapDiffSig string // signature of a snapshot/L0-chain difference in the current context
+const sigF9b = "C12/F9b:snapshot-after-failed-checkpoint-reads-restarted-wal-up-to-stale-offset:snapshot-differs-from-l0-chain-at-its-txid"
+
+// ltxWALRange decodes the WAL salts and range recorded in an LTX file's header.
+func ltxWALRange(path string) (salt1, salt2 uint32, off, size int64, ok bool) {
+	f, err := os.Open(path)
+	if err != nil {
+		return
+	}
+	defer f.Close()
+	dec := ltx.NewDecoder(f)
+	if dec.DecodeHeader() != nil {
+		return
+	}
+	h := dec.Header()
+	return h.WALSalt1, h.WALSalt2, h.WALOffset, h.WALSize, true
+}
 
 func fdsUnder(dir string) []string {
 	ents, _ := os.ReadDir("/proc/self/fd")
@@ -697,12 +712,21 @@ func snapshotOracle(label string, files map[string]ltx.TXID, arcDir, scratch str
 		checked++
 		if d := diffPages(got, ref); len(d) > 0 {
 			sig := sigPrefix + "snapshot-differs-from-l0-chain-at-its-txid"
-			if snapDiffSig != "" {
-				sig = snapDiffSig
+			extra := ""
+			// shape F9b: the snapshot's header names another WAL generation than the L0 file of
+			// the position it advertises: it was built from a restarted WAL that litestream had
+			// not copied yet, read up to the stale synced offset of the previous generation
+			if ss1, ss2, _, ssz, ok := ltxWALRange(p); ok {
+				if ls1, ls2, lo, lsz, ok := ltxWALRange(filepath.Join(arcDir, "ltx", "0", ltx.FormatFilename(n, n))); ok && (ss1 != ls1 || ss2 != ls2) {
+					if sigPrefix == "C12/" {
+						sig = sigF9b
+					}
+					extra = fmt.Sprintf("; the snapshot was read from WAL generation %08x/%08x (%d bytes of it) while L0 %d ends at offset %d of generation %08x/%08x", ss1, ss2, ssz, uint64(n), lo+lsz, ls1, ls2)
+				}
 			}
 			violate(sig,
 				fmt.Sprintf("%s snapshot 1..%d (%s) differs from Restore(TXID=%d) of the L0 chain on %d page(s), first %v",
-					label, n, filepath.Base(p), n, len(d), d[:min(len(d), 8)]), rep)
+					label, n, filepath.Base(p), n, len(d), d[:min(len(d), 8)])+extra, rep)
 		} else if label == "uploaded" {
 			good[n]++
 			ovMu.Lock()
@@ -1067,10 +1091,6 @@ func runEpisode(c cfg, out string, cw *CaseWriter) (res epResult, err error) {
 		return res, derr
 	}
 	sc := filepath.Join(e.dir, "scratch")
-	if e.opCount["CheckpointFull"].Load()+e.opCount["CheckpointRestart"].Load()+e.opCount["CRC64"].Load() > 0 {
-		snapDiffSig = "C12/F9b:full-or-restart-checkpoint-under-writers-then-snapshot:snapshot-differs-from-l0-chain-at-its-txid"
-	}
-	defer func() { snapDiffSig = "" }()
 	// C02: snapshots
 	good := map[ltx.TXID]int{}
 	res.Snapshots = snapshotOracle("uploaded", snapshotFiles(e.snapDir, true), e.arcDir, sc, rep, "C12/", good, e.snapDir)
@@ -1384,22 +1404,72 @@ func scenarioCkptSnap(out string, rounds int) (detail string, err error) {
 	// before the sequence bump (so the WAL is not restarted and the call returns without
 	// copying): roughly one round in sixty. (Holding a write transaction open across the
 	// PRAGMA is deterministic but takes the restart path, which 80a5b27 repaired.)
+	if _, err = e.app.Exec(`CREATE TABLE marker(n INTEGER); INSERT INTO marker VALUES (0)`); err != nil {
+		return "", err
+	}
+	if err = db.SyncAndWait(ctx); err != nil {
+		return "", err
+	}
+	dbg := ckptDebugStart(dbPath)
+	defer ckptDebugStop()
 	var wwg sync.WaitGroup
 	var nw atomic.Int64
 	for w := 1; w <= 3; w++ {
 		wwg.Add(1)
-		go e.writer(w, int64(41+w), &wwg, &nw)
+		go func(id int) { // every commit bumps the marker: the restored value tells the last commit contained
+			defer wwg.Done()
+			r := rand.New(rand.NewSource(int64(41 + id)))
+			for !e.stop.Load() {
+				tx, err := e.app.Begin()
+				if err != nil {
+					continue
+				}
+				for i, k := 0, 1+r.Intn(3); i < k && err == nil; i++ { // same statement mix as episode writers
+					b := make([]byte, 50+r.Intn(2500))
+					r.Read(b)
+					switch r.Intn(6) {
+					case 0, 1, 2:
+						_, err = tx.Exec(`INSERT INTO t(w, v) VALUES (?, ?)`, id, b)
+					case 3, 4:
+						_, err = tx.Exec(`UPDATE t SET v = ? WHERE id = (SELECT id FROM t ORDER BY random() LIMIT 1)`, b)
+					default:
+						_, err = tx.Exec(`DELETE FROM t WHERE id = (SELECT id FROM t ORDER BY random() LIMIT 1)`)
+					}
+				}
+				var n int64
+				if err == nil {
+					err = tx.QueryRow(`UPDATE marker SET n = n + 1 RETURNING n`).Scan(&n)
+				}
+				if err == nil && tx.Commit() == nil {
+					nw.Add(1)
+					if dbg {
+						ckptDebugLog("commit", fmt.Sprintf("n=%d", n))
+					}
+				} else {
+					_ = tx.Rollback()
+				}
+				time.Sleep(time.Duration(r.Intn(3000)) * time.Microsecond)
+			}
+		}(w)
 	}
-	nsnap, ncommit := 0, 0
+	nsnap, ncommit, ckptErrs := 0, 0, 0
 	for k := 0; k < rounds; k++ {
 		mode := litestream.CheckpointModeFull
 		if k%2 == 1 {
 			mode = litestream.CheckpointModeRestart
 		}
-		call("Checkpoint"+mode, func() { _ = db.Checkpoint(ctx, mode) })
+		ckptDebugLog("op.checkpoint", mode)
+		var cerr error
+		call("Checkpoint"+mode, func() { cerr = db.Checkpoint(ctx, mode) })
+		ckptDebugLog("op.checkpoint.ret", fmt.Sprintf("err=%v", cerr))
+		if cerr != nil {
+			ckptErrs++
+		}
+		ckptDebugLog("op.snapshot", "")
 		call("Snapshot", func() {
-			if _, e := db.Snapshot(ctx); e == nil {
+			if info, e := db.Snapshot(ctx); e == nil {
 				nsnap++
+				ckptDebugLog("op.snapshot.ok", fmt.Sprintf("published=1..%d", uint64(info.MaxTXID)))
 			}
 		})
 		ncommit++
@@ -1414,14 +1484,12 @@ func scenarioCkptSnap(out string, rounds int) (detail string, err error) {
 	}
 	rep := map[string]any{"how": "harness conc -ckptsnap N", "history": "three application writers committing continuously; loop: DB.Checkpoint(FULL|RESTART); DB.Snapshot (no sync in between); finally SyncAndWait; Close; every snapshot 1..n against Restore(TXID=n) of the L0 chain"}
 	before := nViols()
-	snapDiffSig = "C12/F9b:full-or-restart-checkpoint-under-writers-then-snapshot:snapshot-differs-from-l0-chain-at-its-txid"
 	n := snapshotOracle("uploaded", snapshotFiles(e.snapDir, true), e.arcDir, dir+"scratch", rep, "C12/", map[ltx.TXID]int{}, e.snapDir)
-	snapDiffSig = ""
 	if nViols() == before {
 		_ = os.RemoveAll(dir)
-		return fmt.Sprintf("%d rounds of Checkpoint(FULL|RESTART)+Snapshot under three live writers (%d commits), %d snapshots, all equal to the L0 chain at their TXID", ncommit, nw.Load(), n), nil
+		return fmt.Sprintf("%d rounds of Checkpoint(FULL|RESTART)+Snapshot under three live writers (%d checkpoint calls returned an error, %d commits), %d snapshots, all equal to the L0 chain at their TXID", ncommit, ckptErrs, nw.Load(), n), nil
 	}
-	return fmt.Sprintf("%d rounds, %d commits, %d snapshots checked: a snapshot contains a commit that landed during the checkpoint although its position does not", ncommit, nw.Load(), n), nil
+	return fmt.Sprintf("%d rounds (%d checkpoint calls returned an error), %d commits, %d snapshots checked: a snapshot contains commits beyond the position it advertises", ncommit, ckptErrs, nw.Load(), n), nil
 }
 
 // ---- scenario: init under a cancelled context ---------------------------------------------------
@@ -1595,6 +1663,7 @@ func cmdConc(args []string) error {
 	regsched := fl.Int("regsched", 2, "registry schedules: longest sequence of whole calls while a RegisterDB is parked (0 = skip)")
 	regstress := fl.Int("regstress", 10, "rounds of the randomised multi-path registration scenario (0 = skip)")
 	ckptsnap := fl.Int("ckptsnap", 0, "rounds of the FULL/RESTART-checkpoint-then-snapshot scenario (0 = skip)")
+	ckptfail := fl.Bool("ckptfail", true, "deterministic: checkpoint fails after the WAL restarted, then Snapshot")
 	halfinit := fl.Bool("halfinit", true, "also run the init-under-cancelled-context scenario")
 	snapdup := fl.Int("snapdup", 6, "rounds of the concurrent-snapshot scenario (0 = skip)")
 	budget := fl.Duration("budget", 0, "stop starting new episodes after this much wall time (0 = none)")
@@ -1616,7 +1685,7 @@ func cmdConc(args []string) error {
 		return err
 	}
 	var results []epResult
-	var f9detail, sddetail, hidetail, rsdetail, rtdetail, bsdetail, csdetail string
+	var f9detail, sddetail, hidetail, rsdetail, rtdetail, bsdetail, csdetail, cfdetail string
 	finish := func() {
 		_ = cw.Close()
 		st := cw.Stats()
@@ -1629,7 +1698,7 @@ func cmdConc(args []string) error {
 				tot[k] += v
 			}
 		}
-		st.Extra = map[string]any{"episodes": results, "ops_total": tot, "f9": f9detail, "snapdup": sddetail, "halfinit": hidetail, "regsched": rsdetail, "regstress": rtdetail, "basic": bsdetail, "ckptsnap": csdetail, "trace_hook": traceEnabled, "trace_events_total": traceTotal}
+		st.Extra = map[string]any{"episodes": results, "ops_total": tot, "f9": f9detail, "snapdup": sddetail, "halfinit": hidetail, "regsched": rsdetail, "regstress": rtdetail, "basic": bsdetail, "ckptsnap": csdetail, "ckptfail": cfdetail, "trace_hook": traceEnabled, "trace_events_total": traceTotal}
 		_ = WriteJSON(filepath.Join(*out, "stats.json"), st)
 	}
 	wdCW = cw
@@ -1682,6 +1751,16 @@ func cmdConc(args []string) error {
 			csdetail = "scenario could not be completed: " + err.Error()
 		} else {
 			csdetail = d
+		}
+	}
+	if *ckptfail && *only < 0 {
+		traceReset()
+		d, err := scenarioCkptFail(*out)
+		emitTrace(cw, "ckptfail")
+		if err != nil {
+			cfdetail = "scenario could not be completed: " + err.Error()
+		} else {
+			cfdetail = d
 		}
 	}
 	if *halfinit && *only < 0 {
